@@ -10,6 +10,7 @@ Definition lz_eqb := list_eqb Z.eqb.
 Definition obs_eqb (a b : obs) : bool :=
   match a, b with
   | ORefused, ORefused => true
+  | OStarted _ _ _, OBlind => true      (* the server started; nothing was asked of it at this start *)
   | OStarted p1 q1 r1, OStarted p2 q2 r2 =>
       list_eqb (option_eqb lz_eqb) p1 p2 && list_eqb Nat.eqb q1 q2 && list_eqb lz_eqb r1 r2
   | _, _ => false
@@ -20,7 +21,7 @@ Fixpoint ins_nat (n : nat) (l : list nat) : list nat :=
   match l with [] => [n] | x :: tl => if Nat.leb n x then n :: l else x :: ins_nat n tl end.
 Definition sort_nat (l : list nat) : list nat := fold_right ins_nat [] l.
 Definition canon (o : obs) : obs :=
-  match o with ORefused => ORefused | OStarted p q r => OStarted p (sort_nat q) r end.
+  match o with OStarted p q r => OStarted p (sort_nat q) r | _ => o end.
 
 (* [skip]: partitions that lost acknowledged, unflushed records in a crash. Their sparse time index
    (outside the model) still describes the lost records; what RANGE answers on them is not compared (the oracle
@@ -31,7 +32,7 @@ Fixpoint blank_at (skip : list nat) (i : nat) (rs : list (list Z)) : list (list 
   | r :: tl => (if mem_nat i skip then [] else r) :: blank_at skip (S i) tl
   end.
 Definition blank (skip : list nat) (o : obs) : obs :=
-  match o with ORefused => ORefused | OStarted p q r => OStarted p q (blank_at skip O r) end.
+  match o with OStarted p q r => OStarted p q (blank_at skip O r) | _ => o end.
 
 Inductive case :=
 | KScenario (np : nat) (lo hi : Z) (sessions : list session) (observed : list obs) (skip : list nat).
